@@ -15,6 +15,7 @@ use crate::{AdditionalLifecycleEventsSet, Poll, PostAction, Readiness, Token, To
 //@ include regtoken_body
 //@ include loop_types_body
 //@ include loop_slices_body
+//@ include loop_ops_body
 } // mod loop_logic
 pub use crate::loop_logic::RegistrationToken;
 pub mod sys {
